@@ -10,6 +10,15 @@ T = 'src/types.rs'
 IMPL = r'SourceMapBuilder\b'
 
 
+# mutation canaries (thorough tier): textual mutations of the EXTRACTED copy that must each fail an obligation of the named item
+MUTANTS = [
+    ('builder::SourceMapBuilder::add_source_with_id', 'if id == count \\{', 'if id >= count || id == 0 {'),
+    ('builder::SourceMapBuilder::add_source_with_id', 'self\\.sources_mapping\\.push\\(old_id\\);', 'self.sources_mapping.push(id);'),
+    ('builder::SourceMapBuilder::set_source_contents', 'self\\.sources\\.len\\(\\) > self\\.source_contents\\.len\\(\\)', 'self.sources.len() != self.source_contents.len()'),
+    ('builder::SourceMapBuilder::add_token', 'token\\.get_src_id\\(\\),', 'token.get_name_id(),'),
+]
+
+
 def emit_builder_struct(u):
     text, origin = u.get_item_text(B, r'(?m)^pub struct SourceMapBuilder\b', 'struct SourceMapBuilder')
     text = re.sub(r'(?m)^\s*//[/!][^\n]*\n', '', text)
